@@ -186,7 +186,7 @@ def check(item, tier):
     with warnings.catch_warnings():
         warnings.simplefilter('ignore')
         np.seterr(all='ignore')
-        mdp = build.SpecMDP(spec, SLAB[li], ALAB[li])
+        mdp = build.SpecMDP(spec, SLAB[li], ALAB[li], dist_kind=['dict', 'uniform', 'det'][(li + len(flagset) + spec.n) % 3])
         sib_T = tuple(tuple((a, d, (tuple(x - 3 for x in rw) if isinstance(rw, tuple) else rw - 3)) for a, d, rw in row) for row in spec_item[2])
         sibling = build.SpecMDP(Spec(spec_item[:2] + (sib_T, tuple(sorted(set(spec_item[3]) | {spec.n - 1}))) + spec_item[4:]), SLAB[li], ALAB[li])
         for hk in HEUR:
